@@ -9,6 +9,7 @@ import O2P.Lemmas.FilterDefunctAll
 import O2P.Lemmas.Bridge
 import O2P.Lemmas.RawSound
 import O2P.Lemmas.SemPerm
+import O2P.Lemmas.BridgeConv
 /-!
 # C06 — gate inference explains all observed successor sets; exact without mixed OR
 The quantifier of C06 is finite and is enumerated by `domain`: `domain_counts` (kernel-checked) gives
@@ -252,6 +253,13 @@ is a Python set, its iteration order depends on the hash seed); this is why that
 theorem children_order_irrelevant (op : POp) (cs cs' : List PTree) (h : cs.Perm cs') (s : List String) :
     (PTree.node op cs).sem s ↔ (PTree.node op cs').sem s :=
   ⟨sem_perm op h s, sem_perm op h.symm s⟩
+
+/-- **the judge and the theorems speak of the same thing**: for a tree without silent leaves, read as a gate tree `g`,
+the executable judge `admits g s` — which decides every tree a check sees — holds exactly when the tree produces `s`
+in the semantics `PTree.sem` the whole-tree theorems are stated in (`Lemmas/Bridge.lean`, `Lemmas/BridgeConv.lean`). -/
+theorem judge_is_sem (t : PTree) (g : Gate) (hn : noTau t = true) (hg : t.toGate = some g) (s : List String) :
+    admits g s = true ↔ t.sem s :=
+  admits_iff_sem t g hn hg s
 
 /-- … and the defunct-OR filter alone, for any tree with distinct names -/
 theorem filter_defunct_sound (F : List (List String)) (hF : ∀ s0 ∈ F, "" ∉ s0) (fuel : Nat) (t : PTree)
